@@ -65,3 +65,12 @@ Print Assumptions C20_progress.
 Print Assumptions C20_can_finish.
 Print Assumptions C20_empty_nonblocking.
 Print Assumptions C20_queue_is_source.
+
+(* every test that the translated functions of this property make is one the environments of their
+   ties were written for: a test that is new in the source breaks this (an unknown equality would
+   otherwise evaluate to false without notice) *)
+From Scrapli Require Import DecideLang GeneratedSkel QueueSrcOk.
+Theorem C20_source_tests_known :
+  tests_known (flat_map (fun e => snd e) GeneratedSkel.queue_code) queue_known = true.
+Proof. exact queue_tests_known. Qed.
+Print Assumptions C20_source_tests_known.
